@@ -405,8 +405,66 @@ static Verdict c15_math(const Case& c) {
   return V;
 }
 
+// ================================================================================================ remaining public members of the math types (for C20)
+template <class T> static std::string api_lib(int shape, const LD* a, const LD* b) {
+  auto cmp = [&](const char* what, const LD* got, const LD* want, int n) -> std::string {
+    for (int i = 0; i < n; i++) { const LD w = (LD)(T)want[i]; if (std::memcmp(&got[i], &w, 10) != 0 && !(got[i] == 0 && w == 0 && std::signbit(got[i]) == std::signbit(w))) return fmt("%s: slot %d is %s, expected %s", what, i, hexld(got[i]).c_str(), hexld(w).c_str()); }
+    return ""; };
+  LD o[9]; std::string m;
+  if (shape == 2) {
+    PlanarVector<T> v(std::array<T, 2>{(T)a[0], (T)a[1]}); fl(v, o); if (!(m = cmp("PlanarVector(array)", o, a, 2)).empty()) return m;
+    v = std::array<T, 2>{(T)b[0], (T)b[1]}; fl(v, o); if (!(m = cmp("PlanarVector = array", o, b, 2)).empty()) return m;
+    o[0] = v.x_y()[0]; o[1] = v.x_y()[1]; if (!(m = cmp("x_y()", o, b, 2)).empty()) return m;
+    v.Set_x_y((T)a[0], (T)a[1]); fl(v, o); if (!(m = cmp("Set_x_y(x, y)", o, a, 2)).empty()) return m;
+    v.Set_x_y(std::array<T, 2>{(T)b[0], (T)b[1]}); fl(v, o); if (!(m = cmp("Set_x_y(array)", o, b, 2)).empty()) return m;
+    v.Mutable_x_y()[1] = (T)a[1]; LD w[2] = {b[0], a[1]}; fl(v, o); if (!(m = cmp("Mutable_x_y()", o, w, 2)).empty()) return m;
+    fl(PlanarVector<T>::Zero(), o); LD z[2] = {0, 0}; if (!(m = cmp("Zero()", o, z, 2)).empty()) return m;
+  } else if (shape == 3) {
+    Vector<T> v(std::array<T, 3>{(T)a[0], (T)a[1], (T)a[2]}); fl(v, o); if (!(m = cmp("Vector(array)", o, a, 3)).empty()) return m;
+    v = std::array<T, 3>{(T)b[0], (T)b[1], (T)b[2]}; fl(v, o); if (!(m = cmp("Vector = array", o, b, 3)).empty()) return m;
+    for (int i = 0; i < 3; i++) o[i] = v.x_y_z()[(size_t)i]; if (!(m = cmp("x_y_z()", o, b, 3)).empty()) return m;
+    v.Set_x_y_z((T)a[0], (T)a[1], (T)a[2]); fl(v, o); if (!(m = cmp("Set_x_y_z(x, y, z)", o, a, 3)).empty()) return m;
+    v.Set_x_y_z(std::array<T, 3>{(T)b[0], (T)b[1], (T)b[2]}); fl(v, o); if (!(m = cmp("Set_x_y_z(array)", o, b, 3)).empty()) return m;
+    v.Mutable_x_y_z()[2] = (T)a[2]; LD w[3] = {b[0], b[1], a[2]}; fl(v, o); if (!(m = cmp("Mutable_x_y_z()", o, w, 3)).empty()) return m;
+    fl(Vector<T>::Zero(), o); LD z[3] = {0, 0, 0}; if (!(m = cmp("Zero()", o, z, 3)).empty()) return m;
+  } else if (shape == 6) {
+    std::array<T, 6> aa, bb; for (int i = 0; i < 6; i++) { aa[(size_t)i] = (T)a[i]; bb[(size_t)i] = (T)b[i]; }
+    SymmetricDyad<T> v(aa); fl(v, o); if (!(m = cmp("SymmetricDyad(array)", o, a, 6)).empty()) return m;
+    v.Set_xx_xy_xz_yy_yz_zz(bb); fl(v, o); if (!(m = cmp("Set_xx_xy_xz_yy_yz_zz(array)", o, b, 6)).empty()) return m;
+    v.Set_xx_xy_xz_yy_yz_zz((T)a[0], (T)a[1], (T)a[2], (T)a[3], (T)a[4], (T)a[5]); fl(v, o); if (!(m = cmp("Set_xx_xy_xz_yy_yz_zz(6 numbers)", o, a, 6)).empty()) return m;
+    for (int i = 0; i < 6; i++) o[i] = v.xx_xy_xz_yy_yz_zz()[(size_t)i]; if (!(m = cmp("xx_xy_xz_yy_yz_zz()", o, a, 6)).empty()) return m;
+    v.Mutable_xx_xy_xz_yy_yz_zz()[4] = (T)b[4]; LD w[6]; for (int i = 0; i < 6; i++) w[i] = a[i]; w[4] = b[4]; fl(v, o); if (!(m = cmp("Mutable_xx_xy_xz_yy_yz_zz()", o, w, 6)).empty()) return m;
+    // the symmetric partners write the same slot
+    v.Set_yx((T)b[1]); v.Set_zx((T)b[2]); v.Mutable_zy() = (T)b[5]; w[1] = b[1]; w[2] = b[2]; w[4] = b[5]; fl(v, o); if (!(m = cmp("Set_yx / Set_zx / Mutable_zy()", o, w, 6)).empty()) return m;
+    fl(SymmetricDyad<T>::Zero(), o); LD z[6] = {0, 0, 0, 0, 0, 0}; if (!(m = cmp("Zero()", o, z, 6)).empty()) return m;
+  } else {
+    std::array<T, 9> aa, bb; for (int i = 0; i < 9; i++) { aa[(size_t)i] = (T)a[i]; bb[(size_t)i] = (T)b[i]; }
+    Dyad<T> v(aa); fl(v, o); if (!(m = cmp("Dyad(array)", o, a, 9)).empty()) return m;
+    v.Set_xx_xy_xz_yx_yy_yz_zx_zy_zz(bb); fl(v, o); if (!(m = cmp("Set_...(array)", o, b, 9)).empty()) return m;
+    v.Set_xx_xy_xz_yx_yy_yz_zx_zy_zz((T)a[0], (T)a[1], (T)a[2], (T)a[3], (T)a[4], (T)a[5], (T)a[6], (T)a[7], (T)a[8]); fl(v, o); if (!(m = cmp("Set_...(9 numbers)", o, a, 9)).empty()) return m;
+    for (int i = 0; i < 9; i++) o[i] = v.xx_xy_xz_yx_yy_yz_zx_zy_zz()[(size_t)i]; if (!(m = cmp("xx_..._zz()", o, a, 9)).empty()) return m;
+    v.Mutable_xx_xy_xz_yx_yy_yz_zx_zy_zz()[7] = (T)b[7]; LD w[9]; for (int i = 0; i < 9; i++) w[i] = a[i]; w[7] = b[7]; fl(v, o); if (!(m = cmp("Mutable_..._zz()", o, w, 9)).empty()) return m;
+    fl(Dyad<T>::Zero(), o); LD z[9] = {0, 0, 0, 0, 0, 0, 0, 0, 0}; if (!(m = cmp("Zero()", o, z, 9)).empty()) return m;
+  }
+  return "";
+}
+static Verdict c20_math_api(const Case& c) {
+  const int nt = (int)c.i[0], n = (int)c.i[1];
+  const std::string m = nt == 0 ? api_lib<float>(n, c.r.data(), c.r.data() + 9) : nt == 1 ? api_lib<double>(n, c.r.data(), c.r.data() + 9) : api_lib<long double>(n, c.r.data(), c.r.data() + 9);
+  static const char* tn[] = {"", "", "PlanarVector", "Vector", "", "", "SymmetricDyad", "", "", "Dyad"};
+  if (!m.empty()) return Verdict::fail(fmt("%s<%s>: %s", tn[n], ntinfo(nt).name, m.c_str()));
+  Verdict V; V.cls = std::string(ntinfo(nt).name) + ";" + tn[n]; V.nontrivial = true; return V;
+}
+
 int main(int argc, char** argv) {
   std::vector<Sub> subs;
+  {
+    Sub s; s.name = "c20.math_api"; s.property = "C20"; s.instances = 12; s.n_quick = 1000; s.n_thorough = 20000; s.run = c20_math_api;
+    s.gen = [](int inst) { static const int shapes[4] = {2, 3, 6, 9}; const int shape = shapes[inst % 4], nt = inst / 4;
+      return rc::gen::map(gen_reals(18, nt, -30, 30, kNeg | kZero), [=](const std::vector<LD>& v) { Case c; c.i = {nt, shape}; c.r = v; return c; }); };
+    s.rule = "the remaining public members of the four vector / tensor types (array constructors and assignment, whole-array accessors and mutators, multi-argument setters, symmetric partner setters, Zero) against a plain array; run in the sanitizer flavour for C20";
+    subs.push_back(s);
+  }
   {
     Sub s; s.name = "c15.math"; s.property = "C15"; s.instances = 12; s.n_quick = 2000; s.n_thorough = 50000; s.run = c15_math;
     s.gen = [](int inst) { static const int shapes[4] = {2, 3, 6, 9}; const int shape = shapes[inst % 4], nt = inst / 4; const int w = nt == 0 ? 20 : 60;
